@@ -386,7 +386,7 @@ impl BudgetEnforcer {
             }
             Event::DocumentStart(_explicit) => {
                 if self.policy == EnforcingPolicy::PerDocument {
-                    self.report.reset();
+                    self.reset_document();
                 } else {
                     self.report.documents += 1;
                     if self.report.documents > self.budget.max_documents {
@@ -402,6 +402,16 @@ impl BudgetEnforcer {
         }
 
         Ok(())
+    }
+
+    /// Forget everything counted for the current document: the report counters and the
+    /// structural state (depth, distinct anchors, open containers) all describe one document
+    /// under per-document enforcement.
+    fn reset_document(&mut self) {
+        self.report.reset();
+        self.depth = 0;
+        self.defined_anchors.clear();
+        self.containers.clear();
     }
 
     fn bump_nodes(&mut self) -> Result<(), BudgetBreach> {
